@@ -3,6 +3,7 @@
 #include "worlds/queue_world.h"
 #include "worlds/bs_world.h"
 #include "worlds/fileinfo_world.h"
+#include "worlds/ninja_world.h"
 
 namespace runner {
 World* makeWorld(const std::string& property) {
@@ -13,6 +14,7 @@ World* makeWorld(const std::string& property) {
   if (property == "C13") return wf::makeFileInfoWorld();
   if (property == "C08" || property == "C09" || property == "C10" || property == "C11" || property == "C12" || property == "C14")
     return wb::makeBsWorld(property);
+  if (property == "C18") return wd::makeNinjaWorld();
   return nullptr;
 }
 } // namespace runner
